@@ -34,7 +34,7 @@ m = {
  'version': 1,
  'setup_cmd': './setup.sh',
  'hooks': {'guard': 'verif', 'enable': 'go build -tags verif (the harness is built with this tag against /repo through go/go.work)',
-           'baseline_off_cmd': 'python3 tools/baseline_check.py /repo', 'source_commits': ['e3a91674445f8de0d6690e492ec57a5debbe6e24'], 'add_only': True},
+           'baseline_off_cmd': 'python3 tools/baseline_check.py /repo', 'source_commits': ['e3a91674445f8de0d6690e492ec57a5debbe6e24', '6186357351027602cdfdac25fca998629bf80a67'], 'add_only': True},
  'engines': [
    {'name': 'lean-proofs', 'path': 'lean/', 'serves_properties': sorted(CLAIMED), 'kind_free_text': 'Lean 4 model (RoModel), proofs (RoProofs), property theorems (RoProps), regenerated fact tables (RoGen), driver executable'},
    {'name': 'go-extractor', 'path': 'go/extract', 'serves_properties': sorted(CLAIMED), 'kind_free_text': 'go/ast fact extractor regenerating lean/RoGen from /repo on every run'},
